@@ -548,6 +548,16 @@ def verify_link_signature_thresholds(layout, steps_metadata):
                 )
                 continue
 
+            # Skip links that were recorded for a different step
+            payload = link.get_payload()
+            if payload.type_ == "link" and payload.name != step.name:
+                LOG.info(
+                    "Skipping link. Link name '%s' does not match step '%s'",
+                    payload.name,
+                    step.name,
+                )
+                continue
+
             # Warn if there are links signed by different subkeys of same main key
             if main_keyid in used_main_keyids:
                 LOG.warning(
